@@ -53,7 +53,9 @@ def diff_signature(base, alt):
         kind = "prob" if why.startswith("probability") else "instances"
         return (kind, why, alt, base)
     # an error / crash / budget on one side (or different classes)
-    if alt["kind"] != "ok":
+    if alt["kind"] != "ok" and base["kind"] != "ok" and alt.get("cls") == "InconsistentEvidenceError":
+        faulty, other = base, alt  # both fail: the grounding-time error is the deviation, not the evaluation-time one
+    elif alt["kind"] != "ok":
         faulty, other = alt, base
     else:
         faulty, other = base, alt
@@ -85,7 +87,7 @@ def load_open_tags(prop):
 # minimisation of (program AST, alternative run) keeping the signature
 
 
-def minimise_program(prog, run_pair, want_sig, max_s=45, max_tests=300):
+def minimise_program(prog, run_pair, want_sig, max_s=45, max_tests=300, require_query=True):
     """run_pair(text) -> signature string or None. Reduces clauses, body literals, queries, evidence."""
     t0 = time.time()
     tests = [0]
@@ -94,7 +96,7 @@ def minimise_program(prog, run_pair, want_sig, max_s=45, max_tests=300):
         if time.time() - t0 > max_s or tests[0] > max_tests:
             return False
         tests[0] += 1
-        if not p["queries"] and not p["evidence"]:
+        if require_query and not p["queries"] and not p["evidence"]:
             return False
         if not gen.is_valid(p):
             return False
